@@ -1295,3 +1295,31 @@ TABLE.with_block = _with_block
 T.declare_ghost("w_counted", z3.BoolSort())        # the running worker is still included in __nb_threads
 T.declare_ghost("w_active", z3.BoolSort())         # the running worker is included in __nb_active_threads
 T.declare_ghost("w_cs_uncounted", z3.BoolSort())
+
+
+# --- socketserver ------------------------------------------------------------------------------------------------
+T.declare_ghost("serving", z3.BoolSort())          # serve_forever() is running in another thread
+T.declare_ghost("shutdown_log", Val)               # order of shutdown steps
+
+
+@TABLE.register("socketserver.BaseServer.shutdown")
+def _bs_shutdown(ex, st, args, kwargs, text):
+    """BaseServer.shutdown(): REQUIRES that serve_forever() is running in another thread (documented: 'otherwise it
+    will deadlock'); then the serving loop has exited when it returns"""
+    from pyvc.symexec import Obligation
+    st = st.copy()
+    st.obligations.append(Obligation("%s/pre-of[socketserver.BaseServer.shutdown:serve_forever_is_running]" % ex.env.fn.key,
+                                     st.hyps(), TABLE.ghost(st, "serving"), st.sig, "pre-of", "serve_forever_is_running",
+                                     ex.env.contract.props))
+    st.assume(TABLE.ghost(st, "serving"))
+    st.ghost["serving"] = z3.BoolVal(False)
+    TABLE.ghost_append(st, "shutdown_log", V.S("shutdown"))
+    return [(st, ("val", V.VNone))]
+
+
+@TABLE.register("socketserver.TCPServer.server_close")
+def _tcp_server_close(ex, st, args, kwargs, text):
+    """TCPServer.server_close(): closes the listening socket"""
+    st = st.copy()
+    TABLE.ghost_append(st, "shutdown_log", V.S("socket_closed"))
+    return [(st, ("val", V.VNone))]
